@@ -811,6 +811,14 @@ def rule_M5(ctx) -> None:
     heads = [nd for nd in g.nodes if nd.kind == "loop"]
     cons = {nd.id for nd in g.nodes if nd.stmt is not None and nd.kind == "stmt" and any(
         isinstance(x, ast.Call) and ast.unparse(x.func) in ("load_varint",) for x in own_nodes(nd.stmt))}
+    # a plain read of at least one byte whose emptiness ends the function right away consumes on every path that goes on
+    for blk in [n_ for n_ in ast.walk(lf) if isinstance(getattr(n_, "body", None), list)]:
+        for a_, b_ in zip(blk.body, blk.body[1:]):
+            if isinstance(a_, ast.Assign) and len(a_.targets) == 1 and isinstance(a_.targets[0], ast.Name) and isinstance(a_.value, ast.Call) and isinstance(a_.value.func, ast.Attribute) \
+                    and a_.value.func.attr == "read" and len(a_.value.args) == 1 and isinstance(a_.value.args[0], ast.Constant) and isinstance(a_.value.args[0].value, int) and a_.value.args[0].value >= 1 \
+                    and isinstance(b_, ast.If) and isinstance(b_.test, ast.UnaryOp) and isinstance(b_.test.op, ast.Not) and isinstance(b_.test.operand, ast.Name) \
+                    and b_.test.operand.id == a_.targets[0].id and b_.body and isinstance(b_.body[-1], (ast.Return, ast.Raise)) and not b_.orelse:
+                cons |= {nd.id for nd in g.nodes if nd.stmt is a_}
     ok = bool(heads)
     for h in heads:
         starts = [m for m, lab in g.succ[h.id] if lab == "iter"]
